@@ -15,6 +15,9 @@ def build(rq):
         eq = "x' = -a*x + u + ext + k*past(x, tau)"
         variables['tau'] = 0.004
         variables['k'] = -0.5
+    if df.startswith('reserved:'):
+        nm = df.split(':', 1)[1]
+        eq = eq.replace('a*x', nm + '*x'); variables[nm] = variables.pop('a')
     if df == 'reserved_name':
         eq = eq.replace('a*x', 'beta*x'); variables['beta'] = variables.pop('a')
     if df == 'undeclared_var':
